@@ -52,6 +52,15 @@ def build():
     # mate-distance pruning at the head of negaScout: from the start of the body to the first logging block
     U.fragment(S_C, 'Search_negaScout_mdp', r'\A', r'if \(logFile\.isOpened\(\)\) \{\s*const SearchTreeInfo& sti = searchTreeInfo\[ply-1\];', within='Search::negaScout', within_kw=dict(nparams=6, template=True),
                params=[('int', 'alpha', False), ('int', 'beta', True), ('int', 'ply', False)], ret='int', using_ns=('SearchConst',), epilogue='\n    return GHOST_NO_RETURN;\n')
+    # how a tablebase probe result is used at a node of negaScout: (1) the cut-off decision, (2) the narrowing of the search window
+    U.raw('int ghost_eval;   /* eval.evalPos() */\n')
+    U.passthrough('ghost_eval')
+    NS_KW = dict(within='Search::negaScout', within_kw=dict(nparams=6, template=True))
+    U.fragment(S_C, 'Search_negaScout_tbDecide', r'int type = tbEnt\.getType\(\);', r'if \(cutOff\) \{\s*emptyMove\.setScore\(score\);', ret='bool', using_ns=('SearchConst',),
+               params=[('TranspositionTable::TTEntry', 'tbEnt', True), ('int', 'ply', False), ('int', 'alpha', False), ('int', 'beta', False), ('int', 'depth', False), ('int', 'evalScore', True), ('int', 'out_score', True)],
+               rules=[(r'eval\.evalPos\(\)', 'ghost_eval', 1)], epilogue='\n    out_score = score;\n    return cutOff;\n', **NS_KW)
+    U.fragment(S_C, 'Search_negaScout_tbWindow', r'if \(\(type == TType::T_GE\) && \(score > alpha\)\) \{\s*tbScore = score;', r'\}\s*\}\s*if \(depth <= 0\) \{\s*q0Eval = evalScore;', using_ns=('SearchConst',),
+               params=[('int', 'type', False), ('int', 'score', False), ('int', 'alpha', True), ('int', 'beta', True), ('int', 'tbScore', True), ('int', 'tbScoreType', True)], **NS_KW)
     ev = ClassInfo('Evaluate'); U.tr.add_class(ev)
     U.pull(EV_C, 'Evaluate::swindleScore', as_static=True)
     return U
@@ -120,6 +129,37 @@ CONTRACTS.update({
         'ensures': ['*beta == (__CPROVER_old(*beta) < MATE0 - (ply + 1) ? __CPROVER_old(*beta) : MATE0 - (ply + 1))',
                     '(alpha >= *beta) ==> __CPROVER_return_value == alpha', '(alpha < *beta) ==> __CPROVER_return_value == GHOST_NO_RETURN'],
     },
+    # C13: an exact tablebase mate score is returned unchanged (exact distance to mate); a tablebase draw yields a non-mate score within the
+    # swindle range; a bound cuts only when it suffices for the window; no mate score is invented
+    'Search_negaScout_tbDecide': {
+        'requires': ['__CPROVER_is_fresh(tbEnt, sizeof(*tbEnt))', '__CPROVER_is_fresh(evalScore, sizeof(*evalScore))', '__CPROVER_is_fresh(out_score, sizeof(*out_score))',
+                     '0 <= ply && ply <= 700', '-MATE0 <= alpha && alpha < beta && beta <= MATE0', '-32767 <= ghost_eval && ghost_eval <= 32767',
+                     '*evalScore == SearchConst_UNKNOWN_SCORE || (-32767 <= *evalScore && *evalScore <= 32767)',
+                     '1 <= spec_rec_type(tbEnt->data) && spec_rec_type(tbEnt->data) <= 3', '-1000 <= spec_rec_eval(tbEnt->data) && spec_rec_eval(tbEnt->data) <= 1000'],
+        'assigns': ['tbEnt->data', '*evalScore', '*out_score'],
+        'ensures': [
+            # exact non-zero result (distance to mate known): always a cut-off with exactly that score and type
+            '(spec_rec_type(__CPROVER_old(tbEnt->data)) == TType_T_EXACT && spec_rec_score(__CPROVER_old(tbEnt->data), ply) != 0) ==> (__CPROVER_return_value && *out_score == spec_rec_score(__CPROVER_old(tbEnt->data), ply) && spec_rec_type(tbEnt->data) == TType_T_EXACT)',
+            # score 0 (draw, or a win/loss frustrated by the 50-move rule): whatever is returned on a cut-off is a non-mate score within the swindle range
+            '(spec_rec_score(__CPROVER_old(tbEnt->data), ply) == 0 && __CPROVER_return_value) ==> (-SearchConst_maxFrustrated <= *out_score && *out_score <= SearchConst_maxFrustrated)',
+            # a lower / upper bound cuts only if it decides the window
+            '(spec_rec_type(__CPROVER_old(tbEnt->data)) == TType_T_GE && spec_rec_score(__CPROVER_old(tbEnt->data), ply) != 0 && __CPROVER_return_value) ==> (*out_score >= beta && *out_score == spec_rec_score(__CPROVER_old(tbEnt->data), ply))',
+            '(spec_rec_type(__CPROVER_old(tbEnt->data)) == TType_T_LE && spec_rec_score(__CPROVER_old(tbEnt->data), ply) != 0 && __CPROVER_return_value) ==> (*out_score <= alpha && *out_score == spec_rec_score(__CPROVER_old(tbEnt->data), ply))',
+            # the stored score is never changed
+            'spec_rec_score(tbEnt->data, ply) == spec_rec_score(__CPROVER_old(tbEnt->data), ply)'],
+    },
+    # the search window is only narrowed, towards the tablebase bound, and the bound itself stays inside the window
+    'Search_negaScout_tbWindow': {
+        'requires': ['__CPROVER_is_fresh(alpha, sizeof(*alpha))', '__CPROVER_is_fresh(beta, sizeof(*beta))', '__CPROVER_is_fresh(tbScore, sizeof(*tbScore))', '__CPROVER_is_fresh(tbScoreType, sizeof(*tbScoreType))',
+                     '-MATE0 <= *alpha && *alpha < *beta && *beta <= MATE0', '-MATE0 <= score && score <= MATE0', '0 <= type && type <= 3',
+                     # not cut off before: a lower bound is below beta, an upper bound above alpha
+                     '(type == TType_T_GE) ==> score < *beta', '(type == TType_T_LE) ==> score > *alpha'],
+        'assigns': ['*alpha', '*beta', '*tbScore', '*tbScoreType'],
+        'ensures': ['*alpha >= __CPROVER_old(*alpha) && *beta <= __CPROVER_old(*beta) && *alpha < *beta',
+                    '(type == TType_T_GE && score > __CPROVER_old(*alpha)) ==> (*alpha == score - 1 && *tbScore == score && *tbScoreType == type)',
+                    '(type == TType_T_LE && score < __CPROVER_old(*beta)) ==> (*beta == score + 1 && *tbScore == score && *tbScoreType == type)',
+                    '(type == TType_T_EXACT || type == TType_T_EMPTY) ==> (*alpha == __CPROVER_old(*alpha) && *beta == __CPROVER_old(*beta))'],
+    },
     'Evaluate_swindleScore': {
         'requires': ['-32767 <= evalScore && evalScore <= 32767', '-1000 <= distToWin && distToWin <= 1000'],
         'assigns': [],
@@ -145,6 +185,8 @@ void h_isDraw(void) { struct PositionValue* v; hv(); PositionValue_isDraw(v); CA
 void h_probeDTM_tail(void) { struct PositionValue* v; int ply; int* sc; hv(); TBGenerator_probeDTM_tail(v, ply, sc); CANARY_POINT; }
 void h_updateEvScore(void) { struct TTEntry* e; int s; hv(); updateEvScore(e, s); CANARY_POINT; }
 void h_mdp(void) { int a, ply; int* b; hv(); Search_negaScout_mdp(a, b, ply); CANARY_POINT; }
+void h_tbDecide(void) { struct TTEntry* e; int ply, a, b, d; int *ev, *os; hv(); ghost_eval = nondet_int(); Search_negaScout_tbDecide(e, ply, a, b, d, ev, os); CANARY_POINT; }
+void h_tbWindow(void) { int t, sc; int *a, *b, *ts, *tt; hv(); Search_negaScout_tbWindow(t, sc, a, b, ts, tt); CANARY_POINT; }
 void h_onDemand(void) { struct TTEntry* e; int ply, hmc, np; hv(); TBProbe_tbProbe_onDemand(e, ply, hmc, np); CANARY_POINT; }
 void h_swindle(void) { int a, b; hv(); Evaluate_swindleScore(a, b); CANARY_POINT; }
 '''
@@ -160,11 +202,13 @@ GROUPS = [
     Group('updateEvScore', 'h_updateEvScore', enforce='updateEvScore', min_props=3),
     Group('tbProbe_onDemand', 'h_onDemand', enforce='TBProbe_tbProbe_onDemand', min_props=5),
     Group('negaScout_mdp', 'h_mdp', enforce='Search_negaScout_mdp', min_props=3),
+    Group('negaScout_tbDecide', 'h_tbDecide', enforce='Search_negaScout_tbDecide', replace=('Evaluate_swindleScore',), min_props=5),
+    Group('negaScout_tbWindow', 'h_tbWindow', enforce='Search_negaScout_tbWindow', min_props=5),
     Group('swindleScore', 'h_swindle', enforce='Evaluate_swindleScore', replace=('BitUtil_lastBit',), min_props=3),
 ]
 PROPERTIES = {
     'C04': ['notifyPV_scoreConv', 'probeDTM_tail', 'negaScout_mdp'],
-    'C13': ['tbProbe_onDemand', 'updateEvScore', 'swindleScore', 'probeDTM_tail', 'notifyPV_scoreConv'],
+    'C13': ['tbProbe_onDemand', 'updateEvScore', 'swindleScore', 'probeDTM_tail', 'notifyPV_scoreConv', 'negaScout_tbDecide', 'negaScout_tbWindow'],
     'C12': ['PositionValue_setMateInN', 'PositionValue_setMatedInN', 'PositionValue_getMateInN', 'PositionValue_getMatedInN', 'PositionValue_isDraw', 'probeDTM_tail'],
 }
 
@@ -179,6 +223,11 @@ NOT_DECIDED = {
  'C13': ['how probe bounds are merged into the search window (negaScout), root move filtering (TBProbe::getSearchMoves), Syzygy/Gaviota paths'],
 }
 MUTANTS = [
+    dict(name='tbDecide_bound_cut_too_early', file='lib/texellib/search.cpp', pattern=r'\(\(type == TType::T_GE\) && \(score >= beta\)\) \|\|', repl='((type == TType::T_GE) && (score > alpha)) ||', groups=['negaScout_tbDecide']),
+    # (a mutant that also tests the cut-off for score-0 bounds at depth >= 16 survived: returning the sound bound 0 is not a C13 violation)
+    dict(name='tbDecide_swindle_sign', file='lib/texellib/search.cpp', pattern=r'                    tbEnt.setType\(TType::T_GE\);\n                    score = -maxSwindle;', repl='                    tbEnt.setType(TType::T_GE);\n                    score = -maxSwindle - 1;', groups=['negaScout_tbDecide']),
+    dict(name='tbWindow_alpha_off_by_one', file='lib/texellib/search.cpp', pattern=r'                alpha = score - 1;', repl='                alpha = score;', groups=['negaScout_tbWindow']),
+    dict(name='tbWindow_beta_wrong_side', file='lib/texellib/search.cpp', pattern=r'                beta = score \+ 1;', repl='                beta = score - 1;', groups=['negaScout_tbWindow']),
     dict(name='notifyPV_win_round', file='lib/texellib/search.cpp', pattern=r'score = \(MATE0 - score\) / 2;', repl='score = (MATE0 - score) / 2 + 1;', groups=['notifyPV_scoreConv']),
     dict(name='notifyPV_lose_round', file='lib/texellib/search.cpp', pattern=r'score = -\(\(MATE0 \+ score - 1\) / 2\);', repl='score = -((MATE0 + score + 1) / 2);', groups=['notifyPV_scoreConv']),
     dict(name='probeDTM_mated_off_by_one', file='lib/texellib/tb/tbgen.cpp', pattern=r'score = -\(SearchConst::MATE0 - ply - n \* 2 - 1\);', repl='score = -(SearchConst::MATE0 - ply - n * 2);', groups=['probeDTM_tail']),
